@@ -89,9 +89,10 @@ RunOK(r, ref, level) ==
   ELSE IF encerr THEN
        IF "stage" \in DOMAIN r
        THEN (r.panicked \/ r.code = 101) /\ IsPrefix(r.stdout, ref.out)   \* abnormal stop
-       ELSE /\ r.code = 1 /\ HasSub(r.stderr, ErrorTag)                 \* diagnosed
-            /\ IF level = 0 THEN r.stdout = ref.out /\ IsPrefix(ref.err, r.stderr)
-                            ELSE IsPrefix(r.stdout, ref.out)               \* earlier text may be withheld
+       ELSE /\ r.code = 1                                                 \* diagnosed: something beyond the
+            /\ IF level = 0                                                \* program's own text is on stderr
+               THEN r.stdout = ref.out /\ IsPrefix(ref.err, r.stderr) /\ Len(r.stderr) > Len(ref.err)
+               ELSE IsPrefix(r.stdout, ref.out) /\ r.stderr # <<>>        \* earlier text may be withheld
   ELSE /\ ~r.timeout
        /\ r.code = (IF ref.ending = "exit1" THEN 1 ELSE 0)
        /\ r.stdout = ref.out /\ r.stderr = ref.err
